@@ -123,12 +123,29 @@ def make_case(inp):
     w = None
     rows, ok = [], False
     try:
-        if use_file:
+        if inp.get("ascii"):
+            # a target that cannot take every character: the rows it refuses are skipped by the caller, the others
+            # must come back exactly
+            target = io.TextIOWrapper(io.BytesIO(), encoding="ascii", newline="")
+            writer = rowio.DelimitedRowWriter(target, df)
+            accepted = []
+            for row in table:
+                try:
+                    writer.write_row(row)
+                    accepted.append(row)
+                except errors.DataFormatError:
+                    pass
+            target.flush()
+            w = target.buffer.getvalue().decode("ascii")
+            table = accepted
+            inp = dict(inp, table=accepted)
+            target = io.StringIO(w, newline="")
+        elif use_file:
             with rowio.DelimitedRowWriter(target, df) as writer:
                 writer.write_rows(table)
             with open(target, "r", encoding="utf-8", newline="") as fh:
                 w = fh.read()
-        else:
+        elif not inp.get("ascii"):
             rowio.DelimitedRowWriter(target, df).write_rows(table)
             w = target.getvalue()
         ok = True
@@ -146,6 +163,8 @@ def make_case(inp):
     obs = {"written": w, "rows": rows, "ok": ok, "delim": df.item_delimiter}
     if not ok:
         obs["read_error"] = read_error
+    if inp.get("ascii"):
+        obs["accepted_table"] = table
     c = "(RTCase %d%%N %d%%N %d%%N %s %s)" % (ord(df.item_delimiter), ord(df.quote_character), ord(df.escape_character), B(df.quoting == csv.QUOTE_ALL), T(table))
     specials = {df.item_delimiter, df.quote_character, df.escape_character, "\r", "\n"}
     nontrivial = any(ch in specials for r in table for cell in r for ch in cell)
@@ -164,7 +183,7 @@ def direct_oracle(inp, obs):
         return None
     if obs.get("error"):
         return "writing the table failed: %s" % obs["error"]
-    if not obs["ok"] or obs["rows"] != inp["table"]:
+    if not obs["ok"] or obs["rows"] != obs.get("accepted_table", inp["table"]):
         return "table does not round-trip: wrote %r, read back %r%s" % (obs["written"], obs["rows"], "" if obs["ok"] else " then DataFormatError")
     return None
 
@@ -219,7 +238,14 @@ def gen_inputs(tier, rnd):
             specials = [q, e]
         alpha = specials + [" ", "\n", "\r", "x", "y", '"', "\\", ","]
         for _ in range(per):
-            if rnd.random() < 0.25:
+            if rnd.random() < 0.1:
+                table = gen_table(rnd, alpha, maxrows=6)
+                for r in table:
+                    if rnd.random() < 0.4:
+                        j = rnd.randrange(len(r))
+                        r[j] = r[j] + rnd.choice(["\u00e4", "\u20ac"]) * rnd.randint(1, 3)
+                yield {"kind": "rt", "delim_spelling": dsp, "quote": q, "escape": e, "quoting": quoting, "line_delimiter": ld, "table": table, "ascii": True}
+            elif rnd.random() < 0.25:
                 # through files, with characters some decoders treat specially as data (also at the very start of the file)
                 table = gen_table(rnd, alpha + ["\ufeff", "\u2028", "\x85", "\ufeff"])
                 if table and table[0] and rnd.random() < 0.5:
